@@ -79,13 +79,13 @@ def cases(tier, seed):
             for eloc in ("pop0", "newcounty"):
                 for setup, n in (("np1", 24), ("ga1", 16)):
                     out.append(dict(seed=seed, bg=dict(n=n, layout="AA2", partial=1), probes=[["nonrep_exceed", eloc]] + [list(p) for p in pr], cfg=_cfg(setup, "all", "zero", ["turnout"], [], [0.5, 0.9])))
-    return out
+    return S.rotate_row_orders(out)
 
 
 def describe(case):
     if "structure" in case:
         return case
-    return {"probes": case["probes"], "bg": case["bg"], "cfg": {k: case["cfg"][k] for k in ("pi_method", "estimands", "features", "aggregates", "alphas", "policy")}}
+    return {"probes": case["probes"], "bg": case["bg"], "cfg": {k: case["cfg"][k] for k in ("pi_method", "estimands", "features", "aggregates", "alphas", "policy")}, "input_row_order": case["cfg"].get("row_order") or "sorted"}
 
 
 def _structure_units(case):
